@@ -237,7 +237,8 @@ def parent(prop, tier, seed):
                 text=True,
             )
             procs.append((k, p, out))
-        budget = prop.case_timeout_s * max(1, n // jobs) + 600
+        # generous wall-clock watchdog (its firing is 'inconclusive', never a verdict)
+        budget = min(8 * 3600, prop.case_timeout_s * max(1, n // jobs) + 600)
         for k, p, out in procs:
             try:
                 so, _ = p.communicate(timeout=max(60, budget - (time.time() - t0)))
